@@ -26,8 +26,9 @@ type c12Input struct {
 
 // sample seconds per (side, a): chosen so that the three steps see different counts (including none)
 var c12Times = map[string][]int{
-	"L1": {0, 6}, "L2": {0, 1, 12}, "L3": {13},
-	"R1": {1, 6}, "R2": {7}, "R3": {0, 1, 2, 14},
+	// over the steps 5,10,15,20 s (window 10 s) series appear, persist and *disappear* on both sides
+	"L1": {0, 1}, "L2": {0, 12, 13, 14}, "L3": {13},
+	"R1": {1, 14}, "R2": {2}, "R3": {8, 9, 10},
 }
 
 func c12Build(in c12Input) ([]mockq.Rec, refmodel.Expr) {
@@ -70,7 +71,7 @@ func c12Check(r *vkit.Run, in c12Input) bool {
 	start := (c09Base + 5) * sec
 	end, step := start, int64(0)
 	if in.Range {
-		end, step = start+10*sec, 5*sec
+		end, step = start+15*sec, 5*sec
 	}
 	times := gridTimes(start, end, step)
 	res := evalEngine(mockq.New(data), expr.Text(), start, end, time.Duration(step))
@@ -150,7 +151,7 @@ func c12Run(r *vkit.Run) {
 			r.State(fmt.Sprint(l, rr))
 		}
 	}
-	r.Note("bounds", "left/right vectors = sum by (a) (count_over_time({side=..}[10s])) for every pair of subsets of a in {1,2,3} (equal, overlapping, disjoint, empty), optionally shifted/scaled to reach 0, negatives and fractions; vector-scalar and scalar-vector for 12 operators x scalars {0,2,-3,0.5}; vector-vector for 15 operators x 6 operand variants; instant and 3-step range with different sample presence per step")
+	r.Note("bounds", "left/right vectors = sum by (a) (count_over_time({side=..}[10s])) for every pair of subsets of a in {1,2,3} (equal, overlapping, disjoint, empty), optionally shifted/scaled to reach 0, negatives and fractions; vector-scalar and scalar-vector for 12 operators x scalars {0,2,-3,0.5}; vector-vector for 15 operators x 6 operand variants; instant and 4-step range in which series appear, persist and disappear on either side")
 }
 
 func c12Replay(r *vkit.Run, v vkit.Violation) *vkit.Violation {
